@@ -58,6 +58,14 @@ Definition d_c11 (op : string) (a : val) : option val :=
                     VT (dtype_name (work_dtype i o)); vbool (round_flag i o); vbool (clip_flag i o);
                     vbool (saturate_top i o)])
       | _, _, _, _, _, _ => Some bad end
+  (* byte orders of the chunk and of the dtype object given to the factory *)
+  | "convert_bo", VL [i; o; pres; wr; cn; fn; vals] =>
+      match getD i, getD o, getB pres, getB wr, getB cn, getB fn, getZs vals with
+      | Some i, Some o, Some pres, Some wr, Some cn, Some fn, Some vals =>
+          let '(res, after) := convert_bo i o pres wr cn fn (map (num_decode i) vals) in
+          Some (VL [vZs (map (num_encode o) res); vZs (map (num_encode i) after);
+                    vbool (aliased i o pres wr (order_matches i o cn fn))])
+      | _, _, _, _, _, _, _ => Some bad end
   (* with the dtype assertion: chunk dtype, then as "convert" *)
   | "convert_chk", VL [cd; i; o; pres; wr; nat_; vals] =>
       match getD cd, getD i, getD o, getB pres, getB wr, getB nat_, getZs vals with
